@@ -298,12 +298,27 @@ class FakeLoop:
         except Exception as e:
             self.callback_exceptions.append(e)
 
+    def _collect_due(self) -> None:
+        """Move every timer due at the current instant to the ready queue, behind what is already queued -
+        as asyncio's _run_once does at the start of each iteration."""
+        while True:
+            h = self.next_timer()
+            if h is None or h.when_ms > self.now_ms:
+                return
+            self.timers.remove(h)
+            self.ready.append(h)
+
     def run_ready(self) -> None:
+        """Run loop iterations at the current instant until nothing is ready and no timer is due."""
         n = 0
-        while self.ready:
-            self._run_one(self.ready.pop(0))
-            n += 1
-            assert n < 5000, 'ready queue does not drain'
+        while True:
+            self._collect_due()
+            if not self.ready:
+                return
+            for _ in range(len(self.ready)):  # one iteration: what was ready when it started
+                self._run_one(self.ready.pop(0))
+                n += 1
+                assert n < 5000, 'ready queue does not drain'
 
     def next_timer(self) -> Optional[Handle]:
         best: Optional[Handle] = None
@@ -325,10 +340,8 @@ class FakeLoop:
             h = self.next_timer()
             if h is None or h.when_ms > t_ms:
                 break
-            self.timers.remove(h)
             if h.when_ms > self.now_ms:
                 self.now_ms = h.when_ms
-            self._run_one(h)
             self.run_ready()
             n += 1
             assert n < 5000, 'timer storm'
@@ -336,15 +349,13 @@ class FakeLoop:
             self.now_ms = t_ms
 
     def step(self) -> bool:
-        """Fire the next pending timer (whatever its deadline) after draining ready callbacks."""
+        """Advance to the next pending timer (whatever its deadline) and run that instant to quiescence."""
         self.run_ready()
         h = self.next_timer()
         if h is None:
             return False
-        self.timers.remove(h)
         if h.when_ms > self.now_ms:
             self.now_ms = h.when_ms
-        self._run_one(h)
         self.run_ready()
         return True
 
